@@ -27,12 +27,25 @@ ENGINE_FILES = None
 
 def engine_digest():
     h = hashlib.sha1()
-    here = os.path.dirname(os.path.abspath(__file__))
-    for f in sorted(os.listdir(here)):
-        if f.endswith('.py'):
-            with open(os.path.join(here, f), 'rb') as fh:
-                h.update(fh.read())
+    # everything under sa/ can feed the interpreter (the look-alike table is derived by props/c14.py, evaluators, the registry reader)
+    top = os.path.dirname(os.path.dirname(os.path.abspath(__file__)))
+    for root, dirs, files in os.walk(top):
+        dirs.sort()
+        for f in sorted(files):
+            if f.endswith('.py'):
+                with open(os.path.join(root, f), 'rb') as fh:
+                    h.update(fh.read())
     return h
+
+
+def prune_cache(d, keep=8):
+    """Results of older trees / engine versions are never read again: keep the newest few files only."""
+    try:
+        files = sorted((os.path.join(d, f) for f in os.listdir(d) if f.endswith('.pkl')), key=os.path.getmtime, reverse=True)
+        for f in files[keep:]:
+            os.remove(f)
+    except OSError:
+        pass
 
 
 def tree_digest(extra=''):
@@ -456,11 +469,12 @@ def _functions_worker(mn):
                     rec['paths'] += 1
                     rec['kinds'].add(kind_of(I, ge, gv))
                     if name == 'get_gender':
-                        if isinstance(gv, Str):
-                            vals_ = S.enum_values(ge, gv, 8)
-                            rec['genders'].add(','.join(vals_) if vals_ else S.describe(ge, gv)[:40])
-                        else:
-                            rec['genders'].add(kind_of(I, ge, gv))
+                        for galt in (gv.alts if isinstance(gv, Maybe) else [gv]):
+                            if isinstance(galt, Str):
+                                vals_ = S.enum_values(ge, galt, 8)
+                                rec['genders'].add(','.join(vals_) if vals_ else S.describe(ge, galt)[:40])
+                            else:
+                                rec['genders'].add(kind_of(I, ge, galt))
                     if name == 'split' and v.fixed:
                         parts = gv.elems if isinstance(gv, Tup) else None
                         if parts is not None and all(isinstance(x, Str) and x.fixed for x in parts):
@@ -550,6 +564,7 @@ def analyse_functions(names=None, jobs=None, use_cache=True):
         with open(tmp, 'wb') as fh:
             pickle.dump(out, fh)
         os.replace(tmp, cpath)
+        prune_cache(os.path.dirname(cpath))
     return out
 
 
@@ -966,6 +981,7 @@ def analyse_validate(names=None, jobs=None, use_cache=True):
         with open(tmp, 'wb') as fh:
             pickle.dump(out, fh)
         os.replace(tmp, cpath)
+        prune_cache(os.path.dirname(cpath))
     return out
 
 
